@@ -23,13 +23,45 @@ QUICK = ck.tier == "quick"
 WORK = tempfile.mkdtemp(prefix="c08-")          # scratch only; removed at the end
 
 
+OUT_CAP = 32 << 20          # bytes of stdout/stderr kept per child
+FSIZE_CAP = 256 << 20       # RLIMIT_FSIZE for every child (also caps its redirected stdout)
+
+
+def _child_limits():
+    import resource
+    os.setsid()
+    resource.setrlimit(resource.RLIMIT_FSIZE, (FSIZE_CAP, FSIZE_CAP))
+    resource.setrlimit(resource.RLIMIT_CORE, (0, 0))
+    resource.setrlimit(resource.RLIMIT_CPU, (900, 900))
+
+
 def run(cmd, inp=None, timeout=120, cwd=None):
+    """run a child with a wall-clock timeout (whole process group is killed), CPU and file-size
+    limits, no core dumps; stdout/stderr go to size-capped scratch files, at most OUT_CAP is read"""
+    import signal
+    fo = tempfile.TemporaryFile(dir=WORK)
+    fe = tempfile.TemporaryFile(dir=WORK)
     try:
-        r = subprocess.run(cmd, input=inp, stdout=subprocess.PIPE, stderr=subprocess.PIPE, text=True,
-                           timeout=timeout, cwd=cwd, errors="replace")
-        return r.returncode, r.stdout, r.stderr
-    except subprocess.TimeoutExpired:
-        return -999, "", "timeout"
+        p = subprocess.Popen(cmd, stdin=subprocess.PIPE if inp is not None else subprocess.DEVNULL,
+                             stdout=fo, stderr=fe, cwd=cwd, preexec_fn=_child_limits)
+        try:
+            p.communicate(inp.encode() if inp is not None else None, timeout=timeout)
+            rc = p.returncode
+        except subprocess.TimeoutExpired:
+            try:
+                os.killpg(p.pid, signal.SIGKILL)
+            except OSError:
+                pass
+            p.wait()
+            rc = -999
+        fo.seek(0)
+        fe.seek(0)
+        out = fo.read(OUT_CAP).decode(errors="replace")
+        err = fe.read(OUT_CAP).decode(errors="replace")
+        return rc, out, (err if rc != -999 else err + "timeout")
+    finally:
+        fo.close()
+        fe.close()
 
 
 # ------------------------------------------------------------------------------------- 1. proofs
